@@ -317,6 +317,11 @@ def check_dangling(chk, rule, prog, eff, cache, floor=4):
     chk.floor(rule, "frees of blocks read from heap fields", n, floor)
 
 
+def _is_record_ptr(ty):
+    """the stored value is a pointer to a stack record (the `top` field sits at offset 0, where many other things live too)"""
+    return isinstance(ty, str) and "_cbor_stack_record" in ty and ty.rstrip().endswith("*")
+
+
 def check_stack_records(chk, rule, prog, eff, floor=4):
     """Frames of the decoding stack: a record that a function unlinks from a decoding stack (the top pointer moves past it)
     is handed to the installed free on the same path - it is not parked anywhere that outlives the unlinking without being
@@ -344,7 +349,7 @@ def check_stack_records(chk, rule, prog, eff, floor=4):
                         cur[b] = e.res
                 elif e.kind == "store":
                     b, o = ptr_key(e.args[0])
-                    if o == top_off and isinstance(b, tuple) and b[0] == "alloca":
+                    if o == top_off and isinstance(b, tuple) and b[0] == "alloca" and _is_record_ptr(e.extra):
                         old = cur.get(b)
                         new = e.args[1]
                         if isinstance(old, tuple) and old[0] in ("ld", "call") and new != old:
@@ -397,7 +402,7 @@ def check_record_items(chk, rule, prog, eff, floor=8):
                         cur[b] = e.res
                 elif e.kind == "store":
                     b, o = ptr_key(e.args[0])
-                    if o == top_off:
+                    if o == top_off and _is_record_ptr(e.extra):
                         old = cur.get(b)
                         new = e.args[1]
                         if isinstance(old, tuple) and old[0] in ("ld", "call") and new != old:
